@@ -162,6 +162,12 @@ impl<N, const NS: usize, const NE: usize> InteractionModelState<N, NS, NE> {
         })
     }
 
+    /// The subscription table (for its `verif_*` projections) - verification harness.
+    #[cfg(feature = "verif")]
+    pub fn verif_subscriptions(&self) -> &Subscriptions<NS> {
+        &self.subscriptions
+    }
+
     /// Suppress the `BasicInformation::StartUp` event that
     /// [`InteractionModel::run`] would otherwise emit when it first starts.
     ///
